@@ -1,4 +1,5 @@
 import Efp.Proofs.Val
+import Efp.Proofs.Sign
 import Efp.Props.C09
 import Mathlib.Algebra.Order.Field.Basic
 import Mathlib.Tactic.Positivity
@@ -139,7 +140,78 @@ theorem energy_footprint_is_energy_times_intensity (energy fp fpkg : HQ) (ci : Q
     fpkg.phys t = energy.phys t * ci.phys := by
   rw [C09.hourly_to_phys fp fpkg U.kg (by decide) hk t, C09.hourly_mul_scalar ci energy fp h t]
 
+/-! ## sign: every footprint value is non-negative when no job deletes data
+
+The footprint rules combine their inputs with `+`, `×`, `÷`, `.to`, `ceil`, shifts, occurrence sums,
+running sums, `.sum()` and `.max()` only — subtraction appears in the storage deletions (C04) and
+nowhere else — and each of these keeps non-negative values non-negative (`Proofs/Sign.lean`). -/
+
+/-- **the total of non-negative parts is non-negative at every hour** -/
+theorem total_nonneg (parts : List Val) (hparts : ∀ v ∈ parts, v.NonNeg) (r : Val)
+    (h : sumVals .empty parts = .ok r) (t : Int) : 0 ≤ r.physAt t ∧ 0 ≤ r.totalPhys :=
+  have hr := nonNeg_sumVals parts .empty r trivial hparts h
+  ⟨Val.physAt_nonneg r hr t, Val.totalPhys_nonneg r hr⟩
+
+/-- energy footprint = energy × intensity is non-negative for non-negative energy and intensity -/
+theorem energy_footprint_nonneg (energy ci fp : Val) (he : energy.NonNeg) (hc : ci.NonNeg)
+    (h : energy.mul ci = .ok fp) (t : Int) : 0 ≤ fp.physAt t :=
+  Val.physAt_nonneg fp (Val.nonNeg_mul energy ci fp he hc h) t
+
+/-- the hourly occurrences of a job (journey starts shifted by each delay and accumulated) are
+non-negative for non-negative journey starts -/
+theorem occurrences_nonneg (utc : Val) (hu : utc.NonNeg) (delays : List Int) (v : Val)
+    (h : occFold utc delays = .ok v) : v.NonNeg := by
+  unfold occFold at h
+  have key : ∀ (dl : List Int) (acc : Val), acc.NonNeg → ∀ v, dl.foldlM (fun occ d => do occ.add (← utc.shiftBy d)) acc = .ok v → v.NonNeg := by
+    intro dl
+    induction dl with
+    | nil =>
+      intro acc hacc v hv
+      simp only [List.foldlM, pure, Except.pure, Except.ok.injEq] at hv
+      subst hv; exact hacc
+    | cons d ds ih =>
+      intro acc hacc v hv
+      simp only [List.foldlM, bind, Except.bind] at hv
+      cases hs : utc.shiftBy d with
+      | error e => simp [hs] at hv
+      | ok sh =>
+        simp only [hs] at hv
+        cases ha : acc.add sh with
+        | error e => simp [ha] at hv
+        | ok acc' =>
+          simp only [ha] at hv
+          exact ih acc' (Val.nonNeg_add acc sh acc' hacc (Val.nonNeg_shiftBy utc sh d hu hs) ha) v hv
+  exact key delays .empty trivial v h
+
+/-- average occurrences in parallel (journeys, requests) are non-negative for non-negative starts -/
+theorem avg_occurrences_nonneg (starts duration v : Val) (hs : starts.NonNeg)
+    (h : nbAvgHourlyOccurrences starts duration = .ok v) : v.NonNeg := by
+  unfold nbAvgHourlyOccurrences at h
+  cases hm : duration.magnitude with
+  | error e => simp [hm, bind, Except.bind] at h
+  | ok dmag =>
+    simp only [hm, bind, Except.bind] at h
+    cases starts with
+    | empty => simp only [pure, Except.pure, Except.ok.injEq] at h; subst h; trivial
+    | q x => cases h
+    | h st =>
+      simp only at h
+      split at h
+      · simp only [pure, Except.pure, Except.ok.injEq] at h; subst h; trivial
+      · cases duration with
+        | empty => simp [throw, throwThe, MonadExceptOf.throw] at h
+        | h y => simp [throw, throwThe, MonadExceptOf.throw] at h
+        | q d =>
+          simp only at h
+          cases hd : d.to U.hour with
+          | error e => simp [hd, bind, Except.bind] at h
+          | ok d' =>
+            simp only [hd, bind, Except.bind, pure, Except.pure, Except.ok.injEq] at h
+            subst h
+            exact ⟨nonNeg_avgOcc st.vals hs.1 _, hs.2⟩
+
 /-! ## non-vacuity -/
+example : (Val.h ⟨[(0, 1), (3600, 0)], U.kg⟩).NonNeg := ⟨by intro p hp; simp at hp; rcases hp with rfl | rfl <;> simp, by decide⟩
 example : dedup ["sv0", "sv1", "sv0"] = ["sv0", "sv1"] := by decide
 example : (Val.h ⟨[(0, 1)], U.kg⟩).HourlyIn U.kg := Or.inr ⟨_, rfl, by decide⟩
 
